@@ -630,6 +630,7 @@ class Exec:
             it = iter(vals)
             parts = []
             raised = None
+            dead = False
             for p in node.values:
                 if isinstance(p, ast.Constant):
                     parts.append(z3.StringVal(p.value))
@@ -637,9 +638,29 @@ class Exec:
                     v = next(it)
                     conv = "r" if p.conversion == ord("r") else "s"
                     if p.format_spec is not None:
-                        raise Unsupported("format spec")
+                        fs = p.format_spec
+                        spec = fs.values[0].value if (isinstance(fs, ast.JoinedStr) and len(fs.values) == 1
+                                                      and isinstance(fs.values[0], ast.Constant)) else None
+                        if spec != "d" or p.conversion != -1:
+                            raise Unsupported("format spec")
+                        # {x:d}: decimal text of an int (bool counts); ValueError for str / float, TypeError for anything
+                        # else (None.__format__('d'), ...)
+                        zv = self.term(v, s)
+                        ok = M.is_intlike(zv)
+                        verr = z3.Or(M.is_StrV(zv), M.is_floatk(zv))
+                        if self.sat(s, z3.And(z3.Not(ok), verr)):
+                            out.append((s.fork().assume(z3.Not(ok), verr), Raised("ValueError", None, "format code 'd' for a str / float")))
+                        if self.sat(s, z3.And(z3.Not(ok), z3.Not(verr))):
+                            out.append((s.fork().assume(z3.Not(ok), z3.Not(verr)), Raised("TypeError", None, "unsupported format string passed to __format__")))
+                        if not self.sat(s, ok):
+                            dead = True
+                            break
+                        s.assume(ok)
+                        v = T(M.IntV(M.int_of(zv)), "int")
                     r = self.to_text(v, s, conv)
                     parts.append(r)
+            if dead:
+                continue
             z = parts[0] if len(parts) == 1 else (z3.Concat(*parts) if parts else z3.StringVal(""))
             z = self.named_concat(s, z3.simplify(z))
             out.append((s, T(M.StrV(z), "str")))
@@ -1284,13 +1305,15 @@ class Exec:
             return out
         if h == "dict":
             out = []
-            if isinstance(v, T) and "C07" in getattr(self, "current_props", ()):
+            if isinstance(v, T):
                 # C07 (frame): reading a missing key of a dict that came from outside may run a subclass's __missing__
                 # (collections.defaultdict inserts the key): a read is side-effect free only for a present key or an
-                # exact dict
+                # exact dict.  Every contract of the function describes its inputs as values that do not change while
+                # it runs, so the obligation supports -- and is counted under -- each of the function's properties.
                 self.frame_ctr = getattr(self, "frame_ctr", 0) + 1
                 self.oblige(st, f"{self.fname.split(':')[-1]}:frame[dict-read]#{self.frame_ctr}", "ensures",
-                            z3.Or(M.has(z, zi), M.rcls(z) == self.ct.id("dict")), ("C07",),
+                            z3.Or(M.has(z, zi), M.rcls(z) == self.ct.id("dict")),
+                            tuple(sorted(set(getattr(self, "current_props", ())) | {"C07"})),
                             text="subscript read of a dict passed in: the key is present or the dict is an exact dict "
                                  "(a defaultdict would be mutated by the read)")
             for s, inn in self.branch(st, M.has(z, zi), "KeyError", "dict subscript"):
